@@ -103,8 +103,10 @@ def c18_global_step(ctx, seq, unit):
                 else:
                     c = p.Calculator() if i % 2 else p.Calculator(_config={'cMaxIterations': 10, 'cMinimumVelocity': 40.0})
                     created.append((c, current))
-                    ctx.check_eq('creation_time_value', c._calc._config.max_calc_step_size_feet, current, rel=1e-12)
+                    if i % 3 == 0:          # some calculators are inspected at once, the others are first touched after the whole sequence
+                        ctx.check_eq('creation_time_value', c._calc._config.max_calc_step_size_feet, current, rel=1e-12)
             for c, want in created:
+                # calculators not inspected at creation are first touched here, after every later set / reset of the global
                 ctx.check_eq('creation_time_value', c._calc._config.max_calc_step_size_feet, want, rel=1e-12, info={'later': True})
         if 'set_bad' not in seq:
             ctx.reach('check:nonpositive_rejected')
@@ -178,7 +180,7 @@ def _cfg_names(tier):
          stubs=['str.strip / str.lower modelled in the z3 sequence theory (ASCII case mapping; whitespace = space, tab, LF, CR, VT, FF)',
                 'hasattr / getattr / re.match / float inside py_ballisticcalc.unit: fork over the finite key set read from the real objects; re.match for the two '
                 'patterns of _parse_value on a (number part, unit part) structured string'],
-         outside=['Python full-Unicode case mapping (only ASCII letters vary in case)', 'TOML file reading (tomllib) - the loader passes the strings to PreferredUnits.set, which is covered'])
+         outside=['Python full-Unicode case mapping (only ASCII letters vary in case)', 'TOML syntax (tomllib itself is replaced by a stub that returns the symbolic spelling as the value of the slot in [pybc.preferred_units]; the real loader _load_config runs on it)'])
 def c18_names(ctx, spelling, unit, kind):
     p = pybc()
     strings = _setup_strings()
@@ -194,6 +196,30 @@ def c18_names(ctx, spelling, unit, kind):
     with with_preferred(**{slot: p.Unit[other]}):
         p.PreferredUnits.set(**{slot: s})
         ctx.check('setter_stores_that_unit', getattr(p.PreferredUnits, slot) is want, info={'slot': slot, 'stored': type(getattr(p.PreferredUnits, slot)).__name__ + ':' + str(int(getattr(p.PreferredUnits, slot))) if isinstance(getattr(p.PreferredUnits, slot), int) else type(getattr(p.PreferredUnits, slot)).__name__})
+    # the configuration-file door: the real loader (_load_config / basicConfig) with the TOML reader replaced by a stub that hands back
+    # the symbolic spelling in the [pybc.preferred_units] table - whatever the loader does with unit names, the slot ends up at that unit
+    import py_ballisticcalc as pkg
+
+    class _Toml:
+        TOMLDecodeError = getattr(getattr(pkg, 'tomllib', None), 'TOMLDecodeError', ValueError)
+
+        @staticmethod
+        def load(fp, **kw):
+            return {'pybc': {'preferred_units': {slot: s}, 'calculator': {}}}
+
+        @staticmethod
+        def loads(text, **kw):
+            return _Toml.load(None)
+    if hasattr(pkg, 'tomllib') and hasattr(pkg, '_load_config'):
+        real = pkg.tomllib
+        pkg.tomllib = _Toml
+        try:
+            with with_preferred(**{slot: p.Unit[other]}):
+                pkg._load_config(__file__, True)
+                st = getattr(p.PreferredUnits, slot)
+                ctx.check('setter_stores_that_unit', st is want, info={'slot': slot, 'door': 'config file', 'stored': type(st).__name__ + (':' + str(int(st)) if isinstance(st, int) else '')})
+        finally:
+            pkg.tomllib = real
     # value string with a numeric prefix
     if not (spelling[0].isdigit() or spelling[0] == '.'):
         whole = ctx.structured_string('value_string', [('num', 6), ('spaces', 2), ('ci', spelling), ('spaces', 1)])
